@@ -136,6 +136,10 @@ def to_z3(text_or_ast, names, macros=None):
             f = e.func.id
             if f in macros:
                 return tr(_expand_macro(e, macros))
+            if f in env and callable(env[f]) and not isinstance(env[f], Arr):
+                # ghost function of the sidecar (e.g. CS(a), L(a), E(a, i), psum(P, j)): arrays are passed as Arr
+                args = [env[a.id] if isinstance(a, ast.Name) and isinstance(env.get(a.id), Arr) else tr(a) for a in e.args]
+                return env[f](*args)
             if f == "len":
                 return arr(e.args[0]).len
             if f in ("min", "max"):
@@ -252,6 +256,8 @@ def to_py(text_or_ast, names, macros=None):
             f = e.func.id
             if f in macros:
                 return ev(_expand_macro(e, macros))
+            if f in env and callable(env[f]):
+                return env[f](*[ev(a) for a in e.args])
             if f == "len":
                 return len(ev(e.args[0]))
             if f == "min":
